@@ -257,6 +257,6 @@ func main() {
 		Exec: exec,
 		Corpus: []string{"Q b1", "Q r", "Q b0;r;b0", "Q b3;b0;b2;r;b1;r;r;b4", "Q b2;d;r;d;b1", "Q x2001;b2;r;b1;x3;r", "Q x1998;r;b1;b1;b1;r;b2",
 			"Q b40;b1;r;b40"},
-		N: map[string]int{"quick": 60, "thorough": 1500},
+		N: map[string]int{"quick": 40, "thorough": 600},
 	})
 }
